@@ -448,7 +448,17 @@ func (x *Exec) doGo(st *State, i *ssa.Go) {
 		x.escape(st, v)
 	}
 	if !i.Call.IsInvoke() {
-		if fv, _, _ := x.resolveCallee(st, &i.Call); fv != nil {
+		fv, calleeT, _ := x.resolveCallee(st, &i.Call)
+		if fv == nil && calleeT.S != "" {
+			// `go f(...)` with a nil function value panics
+			if x.wantNoPanic {
+				o := x.oblig("nopanic[go of a nil func "+x.srcOf(i)+"]", "nopanic", nil, i.Pos())
+				x.Assert(st, o, Neq(calleeT, Zero))
+			} else {
+				st.Restrict(Neq(calleeT, Zero))
+			}
+		}
+		if fv != nil {
 			x.escape(st, fv)
 			// the spawned function's precondition must hold now
 			if fc := x.W.ContractFor(fv.Fn); fc != nil && len(fc.Requires) > 0 {
